@@ -50,6 +50,17 @@ def quadForm (C : List (List α)) (c : List α) : α :=
   let K := Ct.map fun ci => Ct.map fun cj => Np.dot ci cj
   Np.dot c (K.map fun row => Np.dot row c)
 
+/-- the Gram matrix `CᵀC` formed explicitly -/
+def gram (C : List (List α)) : List (List α) :=
+  let Ct := Np.transpose C
+  Ct.map fun ci => Ct.map fun cj => Np.dot ci cj
+
+/-- the kinship-factor contract `CᵀC = K`, entry by entry within tolerance (driver op `c05.spec_factor`) -/
+def factorOk (rel abs_ : α) (C K : List (List α)) : Bool :=
+  let G := gram C
+  G.length == K.length && (List.zip G K).all fun p =>
+    p.1.length == p.2.length && (List.zip p.1 p.2).all fun q => close rel abs_ q.1 q.2
+
 def linDef (D : List (List α)) (c : List α) : List (Entry α) :=
   (List.range (ncols D)).map fun j => Entry.val (-(Np.dot c (column D j)))
 
